@@ -251,13 +251,17 @@ def run_shard(ctx):
     def single_body(s):
         case = {"pdb": s.text}
         v, ci = check_case(case)
-        ci["labels"] = ci.get("labels", []) + ["single-any-structure"]
+        ci["labels"] = ci.get("labels", []) + ["single-any-structure"] + [l for l in s.labels if l.startswith("copy:")]
         ci["nontrivial"] = any(l.startswith("lig:") for l in s.labels)
         ci["sample"] = {"structure": s.summary(), "clause": "single conformation == average"}
         ctx.account(case, v, ci)
 
     ctx.hypothesis_stage("single-conformation-structures", gen.structures(max_res=30 if quick else 60), single_body,
-                         700 if quick else 9000)
+                         600 if quick else 8000)
+    # two or three copies of one library ligand (same chain: their groups share a label; or one per chain)
+    ctx.hypothesis_stage("single-conformation-ligand-copies", gen.structures(max_res=20 if quick else 40,
+                                                                             ligand_copies=True), single_body,
+                         200 if quick else 3000)
 
     names = ["conf-alt-AB-mutant", "conf-alt-AB", "conf-alt-BC", "conf-model-missing-atoms", "conf-model-mutant",
              "4DFR"]
